@@ -35,6 +35,7 @@ _COPIES = [
     (r"^C02\.rebuild_from_config\.TorchIndexParameter", "C04"),
     (r"^C02\.opt\.match_parameter_nodes_pattern", "C14"),
     (r"^C02\.build_folded_graph\.(step|suffix)\.", "C01"),
+    (r"^C02\.build_unfold_index_info\.(step|suffix)\.", "C01"),
     (r"^C02\.opt\.match_optimization_patterns\.(chain4|chain3_three_patterns)$", "C14"),
     (r"^C03\.rule\.integrate_", "C10"),
     (r"^C04\.rule\.multiply_", "C10"),
